@@ -4,6 +4,7 @@ from __future__ import annotations
 
 from abc import ABC, abstractmethod
 import asyncio
+from collections import deque
 from collections.abc import Callable
 import logging
 from typing import Self
@@ -95,6 +96,7 @@ class _DeviceManagementConnection(ABC):
         "_disconnect_callback",
         "_heartbeat",
         "_pending",
+        "_received",
         "_request_lock",
         "communication_channel",
         "gateway_ip",
@@ -124,6 +126,8 @@ class _DeviceManagementConnection(ABC):
         self._data_endpoint_addr: tuple[str, int] | None = None
         self._disconnect_callback: KNXIPTransport.Callback | None = None
         self._pending: asyncio.Future[CEMIFrame] | None = None
+        # frames received while the pending request has not looked at the previous one yet
+        self._received: deque[CEMIFrame] = deque()
         self._request_lock = asyncio.Lock()
         self._heartbeat = ConnectionHeartbeat(
             name="Device management connection",
@@ -349,6 +353,9 @@ class _DeviceManagementConnection(ABC):
                             answer,
                         )
                         pending = asyncio.get_running_loop().create_future()
+                        if self._received:
+                            # arrived right behind the discarded frame - e.g. in the same TCP segment
+                            pending.set_result(self._received.popleft())
                         self._pending = pending
             except TimeoutError:
                 raise CommunicationError(
@@ -366,6 +373,7 @@ class _DeviceManagementConnection(ABC):
                 raise
             finally:
                 self._pending = None
+                self._received.clear()
 
     def _cemi_received(self, raw_cemi: bytes) -> None:
         """Handle a cEMI frame the server sent."""
@@ -390,8 +398,13 @@ class _DeviceManagementConnection(ABC):
                 except Exception:  # pylint: disable=broad-exception-caught
                     logger.exception("Unexpected error in indication_callback")
             return
-        if self._pending is not None and not self._pending.done():
-            self._pending.set_result(cemi)
+        if self._pending is not None and not self._pending.cancelled():
+            if self._pending.done():
+                # the request did not get to look at the previous frame yet - keep this one
+                # for it instead of dropping what may be the awaited answer
+                self._received.append(cemi)
+            else:
+                self._pending.set_result(cemi)
             return
         logger.debug("Received an unexpected cEMI frame: %s", cemi)
 
